@@ -16,14 +16,14 @@ def opt_type(schema, sp, name):
     return "int"
 
 
-def ctxspec(sp):
+def ctxspec(sp, ctx="c1"):
     if not sp:
-        return "c1"
-    return "c1#" + "/".join("%d/%d" % (s["oi"] - 1, s["ii"] - 1) for s in sp)
+        return ctx
+    return ctx + "#" + "/".join("%d/%d" % (s["oi"] - 1, s["ii"] - 1) for s in sp)
 
 
-def call_cmd(c, schema):
-    op, cs, name = c["op"], ctxspec(c["sp"]), enc(c["name"])
+def call_cmd(c, schema, ctx="c1"):
+    op, cs, name = c["op"], ctxspec(c["sp"], ctx), enc(c["name"])
     if op in ("setint", "setfloat"):
         return "%s %s %s %d %s" % (op, cs, name, c["idx"], c["val"])
     if op == "setbool":
